@@ -501,7 +501,7 @@ func cmdCheck(args []string) int {
 	known := loadKnown()
 	exit := 0
 	var reports []*symgo.HarnessReport
-	var allAssume []string
+	allAssume := []string{"engine: go/ssa interpreter with symbolic scalars; the native models listed in DESIGN.md section 2 (time, errors, fmt, hashes as uninterpreted functions, sync primitives, no-op logging and metrics) and the SMT solvers are trusted"}
 	totalViol := 0
 	inconclusive := false
 	for _, s := range sel {
@@ -572,10 +572,26 @@ func cmdCheck(args []string) int {
 			confirmed := true
 			note := ""
 			if s.Replay && !*noReplay {
-				ok, out := nativeReplay(sc, s, specs, v, replayPath)
-				confirmed = ok
-				if !ok {
-					note = out
+				cands := append([]symgo.Violation{v}, rep.AltViolations[v.Label]...)
+				// prefer witnesses that use the least scheduling / wake-up freedom
+				sort.SliceStable(cands, func(a, b int) bool {
+					sa, sb := engineChoiceScore(cands[a].Script), engineChoiceScore(cands[b].Script)
+					if sa != sb {
+						return sa < sb
+					}
+					return len(cands[a].Script) < len(cands[b].Script)
+				})
+				for ci, cv := range cands {
+					writeJSON(replayPath, map[string]interface{}{"property": prop, "harness": s.Name, "func": s.Func, "pkg": s.PkgRel, "label": cv.Label, "inputs": cv.Inputs, "script": cv.Script, "detail": cv.Detail, "observations": cv.Obs})
+					ok, out := nativeReplay(sc, s, specs, cv, replayPath)
+					confirmed = ok
+					if ok {
+						v = cv
+						break
+					}
+					if ci == 0 {
+						note = out
+					}
 				}
 			}
 			if !confirmed {
@@ -606,6 +622,20 @@ func cmdCheck(args []string) int {
 		fmt.Printf("OK property=%s tier=%s harnesses=%d wall=%.1fs\n", prop, *tier, len(sel), time.Since(start).Seconds())
 	}
 	return exit
+}
+
+// engineChoiceScore sums the engine-made choices ("c<n>") of a decision script:
+// 0 means no preemption and FIFO wake-ups throughout.
+func engineChoiceScore(script string) int {
+	n := 0
+	for _, f := range strings.Fields(script) {
+		if strings.HasPrefix(f, "c") {
+			var v int
+			fmt.Sscanf(f[1:], "%d", &v)
+			n += v
+		}
+	}
+	return n
 }
 
 func flagSet(fs *flag.FlagSet, name string) bool {
